@@ -135,6 +135,8 @@ format_t::element_t * format_t::parse_elements(const string& fmt,
 
   for (const char * p = fmt.c_str(); *p; p++) {
     if (*p != '%' && *p != '\\') {
+      if (static_cast<std::size_t>(q - buf) >= sizeof(buf))
+        throw_(format_error, _("Format string literal is too long"));
       *q++ = *p;
       continue;
     }
